@@ -95,10 +95,13 @@ def inj_group_plus_mandatory(kind):
     def f(spec, r):
         k = r.randint(2, 4)
         mn, mx = {"alt": (1, 1), "or": (1, k), "mutex": (0, 1), "card": (2, k) if k > 2 else (0, 2)}[kind]
+        j = r.randint(1, 2)
+        if kind == "card" and r.random() < 0.5:
+            mx = k + j          # an upper bound equal to the number of ALL children (members + mandatory siblings)
         p = add_group(spec, r, mn, mx, k, leaf_only=True)
         if not p:
             return None
-        for n in _fresh(spec, r, r.randint(1, 2)):
+        for n in _fresh(spec, r, j):
             p["rels"].append({"min": 1, "max": 1, "children": [{"name": n, "rels": []}]})
         r.shuffle(p["rels"])
         return spec
@@ -373,6 +376,34 @@ def inj_dash_twin(spec, r):
     return _add_ctc(spec, ["AND", ["IMPLIES", a["name"], other], ["OR", twin, other]])
 
 
+def inj_norm_twin(spec, r):
+    """Two distinct features whose names coincide under a typical identifier normalisation (blank -> underscore,
+    blanks removed, runs of blanks folded, hyphen -> underscore), both used in constraints - also inside one."""
+    feats = _feats(spec)
+    if len(feats) < 3:
+        return None
+    a, b = r.sample(feats[1:], 2)
+    base = a["name"] if len(a["name"]) >= 2 else a["name"] + "x"
+    k = r.randint(1, len(base) - 1)
+    h, t = base[:k], base[k:]
+    x, twin = r.choice([(h + " " + t, h + "_" + t), (h + " " + t, h + t), (h + "  " + t, h + " " + t),
+                        (h + "-" + t, h + "_" + t), (h + " " + t + " x", h + "_" + t + " x"),
+                        (h + "   " + t, h + "  " + t)])
+    names = set(S.feature_names(spec)) - {a["name"], b["name"]}
+    if x in names or twin in names or x == twin:
+        return None
+    olda, oldb = a["name"], b["name"]
+    a["name"], b["name"] = x, twin
+    for c in spec["ctcs"]:
+        c["ast"] = _subst(_subst(c["ast"], olda, x), oldb, twin)
+    rest = [f["name"] for f in feats[1:] if f["name"] not in (x, twin)]
+    other = r.choice(rest) if rest else feats[0]["name"]
+    _add_ctc(spec, ["REQUIRES", x, other])
+    _add_ctc(spec, ["IMPLIES", other, ["NOT", twin]])
+    _add_ctc(spec, ["AND", ["IMPLIES", x, other], ["OR", twin, ["NOT", other]]])
+    return spec
+
+
 def inj_dup_ctc(spec, r):
     """The same constraint stated twice (plus a different one): multiplicities matter."""
     a, b = _two(spec, r)
@@ -447,6 +478,9 @@ ATTR_VALUES = {
     "attr:big-int": lambda r: r.choice([2 ** 40, -(2 ** 33), 10 ** 15, 9007199254740993, 2 ** 63 - 1, 10 ** 20 + 1]),
     "attr:zero-false": lambda r: r.choice([0, False, 0.0]),
     "attr:empty-map": lambda r: {},
+    "attr:str-syntax": lambda r: r.choice(["see [3]", "[7]", "{k 1}", "a, b", "true", "123", "[1-2]", "x [ 4 ] y", "# no", "// no"]),
+    "attr:list-str-syntax": lambda r: r.choice([["see [3]", "b"], ["[12]"], {"k": ["[3]", 3]}, [["[5]"], [5]], ["a, b", "{c 1}"],
+                                               ["[1-2]", 1], ["true", True], ["12", 12]]),
     "attr:str-empty": lambda r: "",
     "attr:str-squote": lambda r: "it's",
     "attr:str-dquote": lambda r: 'say "hi"',
@@ -486,6 +520,16 @@ def inj_attr_name(newname):
     return f
 
 
+def inj_attr_named_abstract(spec, r):
+    """An attribute literally called `abstract` (a legal JSON attribute name) on concrete and abstract features."""
+    fs = _feats(spec)
+    for k, f in enumerate(r.sample(fs, min(len(fs), 3))):
+        f.setdefault("attrs", []).append({"name": _attr_name(f, "abstract"), "value": [True, "yes", None, 1, False, 0][(k + r.randint(0, 5)) % 6]})
+        if k == 2:
+            f["abstract"] = True
+    return spec
+
+
 def inj_afm_attr(kind):
     def f(spec, r):
         feat = r.choice(_feats(spec))
@@ -493,6 +537,11 @@ def inj_afm_attr(kind):
             a = r.randint(0, 5)
             dom = {"ranges": [[a, a + r.randint(1, 50)]], "elements": []}
             default, null = str(a), "0"
+        elif kind == "odd-ranges":
+            # ranges nested in / overlapping / preceding one another: the domain is the list as written
+            dom = {"ranges": r.choice([[[0, 100], [10, 20]], [[0, 10], [5, 20]], [[10, 20], [0, 3]], [[0, 50], [0, 5]],
+                                       [[1, 9], [2, 3], [20, 30]], [[0, 3], [3, 7]], [[5, 5], [5, 5]]]), "elements": []}
+            default, null = str(dom["ranges"][0][0]), "0"
         elif kind == "two-ranges":
             dom = {"ranges": [[0, 3], [10, 20]], "elements": []}
             default, null = "2", "0"
